@@ -355,6 +355,8 @@ class Fn:
         self.argc = m['argc']
         self.locals = m['locals']
         self.upvars = m.get('upvars', [])
+        self._promoted_raw = d.get('promoted', [])
+        self._promoted = {}
         self._blocks_raw = m['blocks']
         self._blocks = None
         self._cfg = None
@@ -364,6 +366,19 @@ class Fn:
         if self._blocks is None:
             self._blocks = [Block(i, b) for i, b in enumerate(self._blocks_raw)]
         return self._blocks
+
+    def promoted(self, idx):
+        """the promoted constant body number idx as a pseudo Fn (or None)"""
+        if idx in self._promoted:
+            return self._promoted[idx]
+        r = None
+        if idx < len(self._promoted_raw):
+            d = dict(self.d)
+            d = {'q': self.q + '::promoted[%d]' % idx, 'kind': 'Promoted', 'file': self.file, 'line': self.line,
+                 'mir': self._promoted_raw[idx]}
+            r = Fn(d, self.crate)
+        self._promoted[idx] = r
+        return r
 
     def local_name(self, i):
         return self.locals[i].get('n')
